@@ -1,14 +1,14 @@
 #!/bin/bash
-# seedcheck.sh <ID> [suffix] — confirm a sub-agent's seeded defect and run the checks against it.
+# seedcheck.sh <ID> [suffix] [outdir] — confirm a sub-agent's seeded defect and run the checks against it.
 #  1. in the agent's scratch worktree /tmp/seed-<ID><suffix>: clean source + demo passes; patch applies; existing
 #     suite green with the patch (default and all features); demo fails with the patch
 #  2. apply the patch to /repo, run the property's quick check (and any extra ids in $EXTRA), revert
 #  3. store patch, demo and meta.json under /verif/seeded/<ID><suffix>/
-ID="$1"; SUF="${2:-}"; WT="/tmp/seed-$ID"; OUT="$WT/OUT"; DEST="/verif/seeded/$ID$SUF"
+ID="$1"; SUF="${2:-}"; WT="/tmp/seed-$ID"; OUT="${3:-$WT/OUT}"; DEST="/verif/seeded/$ID$SUF"
 [ -f "$OUT/patch.diff" ] || { echo "no patch in $OUT"; exit 2; }
 export CARGO_NET_OFFLINE=true RUST_BACKTRACE=0
 cd "$WT" || exit 2
-git checkout -q -- src 2>/dev/null; git stash list >/dev/null
+git checkout -q -- src 2>/dev/null; rm -f tests/seeded_demo*.rs
 git apply --check "$OUT/patch.diff" || { echo "patch does not apply to clean source"; exit 2; }
 cp "$OUT/seeded_demo.rs" tests/seeded_demo.rs
 clean_demo=$(cargo test --offline --all-features --test seeded_demo 2>&1 | grep -E "^test result" | tail -1)
